@@ -305,11 +305,19 @@ def localtime_pairing(R, lib, ob):
         h, m, sec = (_P(x) for x in a[2])
         if sec.is_const():
             continue        # the sentinel path
-        q1 = Poly.atom(('tdiv', S.key(), Poly.const(60).key()))
-        want = (Poly.atom(('tdiv', q1.key(), Poly.const(60).key())), Poly.atom(('tmod', q1.key(), Poly.const(60).key())),
-                Poly.atom(('tmod', S.key(), Poly.const(60).key())))
-        ok = (h, m, sec) == want
-        why = 'forSeconds builds (hour, minute, second) = (%r, %r, %r)' % (h, m, sec)
+        # the three closed forms are given their integer meaning on every second of the day (how the quotients and
+        # remainders are spelled - %, /, a helper local, unsigned or signed intermediates - does not matter)
+        from .gnf import compile_poly
+        pname = f.params[0][0]
+        try:
+            fh, fm, fs = (compile_poly(x, lambda at: "v['s']" if at == ('sym', pname) else None) for x in (h, m, sec))
+            bad = next((t for t in range(86400) if (fh({'s': t}), fm({'s': t}), fs({'s': t})) != (t // 3600, t // 60 % 60, t % 60)), None)
+        except AnalysisError as ex:
+            bad, why = -1, 'forSeconds builds (hour, minute, second) = (%r, %r, %r): %s' % (h, m, sec, ex)
+        ok = bad is None
+        if bad is not None and bad >= 0:
+            why = 'forSeconds(%d) builds (hour, minute, second) = (%d, %d, %d), expected (%d, %d, %d)' % (
+                bad, fh({'s': bad}), fm({'s': bad}), fs({'s': bad}), bad // 3600, bad // 60 % 60, bad % 60)
     ob('R5', f.name, f.loc, ok, why)
     g = lib.fn('ace_time::LocalTime::toSeconds')
     s = SymExec(fold_global=lib.global_value).run(g.name, g.body, {})
